@@ -64,35 +64,52 @@ func singleReturn(fn *ssa.Function) *ssa.Return {
 	return ret
 }
 
+// intersects recognises  (x & y) != 0  /  (x & y) > 0  and returns x, y.
+func intersects(v ssa.Value) (ssa.Value, ssa.Value, bool) {
+	b, ok := v.(*ssa.BinOp)
+	if !ok || (b.Op != token.NEQ && b.Op != token.GTR) {
+		return nil, nil, false
+	}
+	var and *ssa.BinOp
+	if k, isK := constUint(b.Y); isK && k == 0 {
+		and, _ = b.X.(*ssa.BinOp)
+	} else if k, isK := constUint(b.X); isK && k == 0 && b.Op == token.NEQ {
+		and, _ = b.Y.(*ssa.BinOp)
+	}
+	if and == nil || and.Op != token.AND {
+		return nil, nil, false
+	}
+	return and.X, and.Y, true
+}
+
 func c16Has(a *An, opHas, evHas *ssa.Function) {
 	ok := false
 	wit := "body is not a single `return o&h != 0`"
-	if r := singleReturn(opHas); r != nil && len(opHas.Blocks) == 1 && len(r.Results) == 1 {
-		if ne, isB := r.Results[0].(*ssa.BinOp); isB && ne.Op == token.NEQ {
-			var and *ssa.BinOp
-			if k, isK := constUint(ne.Y); isK && k == 0 {
-				and, _ = ne.X.(*ssa.BinOp)
-			} else if k, isK := constUint(ne.X); isK && k == 0 {
-				and, _ = ne.Y.(*ssa.BinOp)
-			}
-			if and != nil && and.Op == token.AND && len(opHas.Params) == 2 {
-				p0, p1 := ssa.Value(opHas.Params[0]), ssa.Value(opHas.Params[1])
-				if (and.X == p0 && and.Y == p1) || (and.X == p1 && and.Y == p0) {
-					ok, wit = true, "return (o & h) != 0"
-				}
+	if r := singleReturn(opHas); r != nil && len(opHas.Blocks) == 1 && len(r.Results) == 1 && len(opHas.Params) == 2 {
+		if x, y, isI := intersects(r.Results[0]); isI {
+			p0, p1 := ssa.Value(opHas.Params[0]), ssa.Value(opHas.Params[1])
+			if (x == p0 && y == p1) || (x == p1 && y == p0) {
+				ok, wit = true, "return (o & h) != 0"
 			}
 		}
 	}
 	a.R.Sites += len(opHas.Blocks)
 	a.R.ob("C16.1", "Op.Has", "Op.Has reports true exactly when the two operation sets intersect", a.P.pos(opHas.Pos()), ok, wit)
 	ok2 := false
-	wit2 := "body is not `return e.Op.Has(op)`"
-	if r := singleReturn(evHas); r != nil && len(evHas.Blocks) == 1 && len(r.Results) == 1 {
+	wit2 := "body is neither `return e.Op.Has(op)` nor `return e.Op&op != 0`"
+	if r := singleReturn(evHas); r != nil && len(evHas.Blocks) == 1 && len(r.Results) == 1 && len(evHas.Params) == 2 {
+		c := a.E.rootCtx(evHas)
+		isRecvOp := func(v ssa.Value) bool {
+			return strings.HasPrefix(c.path(v), "recv.") && types.Identical(v.Type(), a.Ro.Op)
+		}
 		if call, isC := r.Results[0].(*ssa.Call); isC && call.Call.StaticCallee() == opHas && len(call.Call.Args) == 2 {
-			c := a.E.rootCtx(evHas)
-			recvOp := c.path(call.Call.Args[0])
-			if strings.HasPrefix(recvOp, "recv.") && types.Identical(call.Call.Args[0].Type(), a.Ro.Op) && call.Call.Args[1] == ssa.Value(evHas.Params[1]) {
-				ok2, wit2 = true, "return Op.Has("+recvOp+", op)"
+			if isRecvOp(call.Call.Args[0]) && call.Call.Args[1] == ssa.Value(evHas.Params[1]) && ok {
+				ok2, wit2 = true, "return Op.Has("+c.path(call.Call.Args[0])+", op)"
+			}
+		} else if x, y, isI := intersects(r.Results[0]); isI {
+			p1 := ssa.Value(evHas.Params[1])
+			if (isRecvOp(x) && y == p1) || (isRecvOp(y) && x == p1) {
+				ok2, wit2 = true, "return (e.Op & op) != 0"
 			}
 		}
 	}
@@ -103,11 +120,12 @@ func c16OpString(a *An, opStr *ssa.Function) {
 	w := a.E.Walk(opStr, WalkOpts{})
 	a.R.Sites += len(w.Visits)
 	opN, _ := opNames(a)
-	type row struct {
+	type row2 = struct {
 		bit   uint64
 		token string
 		pos   string
 	}
+	type row = row2
 	var rows []row
 	var probs []string
 	var builder ssa.Value
@@ -147,6 +165,63 @@ func c16OpString(a *An, opStr *ssa.Function) {
 				}
 				rows = append(rows, row{l.A.Bits, tok, a.P.instrPos(call)})
 			}
+		}
+	}
+	// data-driven form: names appended from a constant package table under `o & row.op != 0`, joined with "|"
+	joined := false
+	if len(rows) == 0 && len(probs) == 0 {
+		for _, v := range w.Visits {
+			call, ok := v.Instr.(*ssa.Call)
+			if !ok || v.Ctx.Parent != nil {
+				continue
+			}
+			args, isApp := isBuiltinCall(call, "append")
+			if !isApp || len(args) != 2 {
+				continue
+			}
+			elem := ""
+			if sl, okS := args[1].(*ssa.Slice); okS {
+				if al, okA := sl.X.(*ssa.Alloc); okA {
+					if refs := al.Referrers(); refs != nil {
+						for _, r := range *refs {
+							if ia, okI := r.(*ssa.IndexAddr); okI {
+								if rr := ia.Referrers(); rr != nil {
+									for _, u := range *rr {
+										if st, okSt := u.(*ssa.Store); okSt && st.Addr == ssa.Value(ia) {
+											elem = v.Ctx.path(st.Val)
+										}
+									}
+								}
+							}
+						}
+					}
+				}
+			}
+			g, nameF, isT := tableElem(a.P, elem)
+			if !isT {
+				probs = append(probs, "a name that is not a row of a constant table is appended at "+a.P.instrPos(call))
+				continue
+			}
+			tab, okT := staticTable(a.P, g)
+			subj, opF, okG := tableGuard(a.P, v.Cond, g)
+			if !okT || !okG || subj != "recv" {
+				probs = append(probs, sprintf("table %s is not an immutable constant table tested against the receiver (%v, %v, subject %q)", g.Name(), okT, okG, subj))
+				continue
+			}
+			for _, row := range tab {
+				bit, ok1 := constU(row[opF])
+				nm := row[nameF]
+				if !ok1 || nm == nil || nm.Value == nil || nm.Value.Kind() != constant.String {
+					probs = append(probs, "malformed row in table "+g.Name())
+					continue
+				}
+				if popcount(bit) != 1 {
+					probs = append(probs, sprintf("row %q of table %s tests several bits at once (%#x)", constant.StringVal(nm.Value), g.Name(), bit))
+					continue
+				}
+				rows = append(rows, row2{bit, "|" + constant.StringVal(nm.Value), a.P.instrPos(call) + " (table " + g.Name() + ")"})
+			}
+			joined = true
 		}
 	}
 	// defined constants
@@ -209,8 +284,11 @@ func c16OpString(a *An, opStr *ssa.Function) {
 				lit = constant.StringVal(x.Value)
 			}
 			underEmpty, _ := v.Cond.everyConj(func(c Conj) bool {
-				return len(c) == 1 && c.has(func(l Lit) bool {
-					return l.A.Kind == AkCmp && !l.Neg && l.A.Op == "==" && l.A.K == "c:0" && strings.Contains(l.A.Subj, "(*strings.Builder).Len(")
+				return c.has(func(l Lit) bool {
+					return l.A.Kind == AkCmp && !l.Neg && l.A.Op == "==" && l.A.K == "c:0" && (strings.Contains(l.A.Subj, "(*strings.Builder).Len(") || strings.HasPrefix(l.A.Subj, "call:len("))
+				}) && !c.has(func(l Lit) bool {
+					// nothing else may condition it (loop-exit literals aside)
+					return !(l.A.Kind == AkCmp && (l.A.K == "c:0" || strings.Contains(l.A.Subj, "rangeindex"))) && !strings.Contains(l.A.Subj, "next(range(")
 				})
 			})
 			if lit == "[no events]" && underEmpty {
@@ -224,6 +302,13 @@ func c16OpString(a *An, opStr *ssa.Function) {
 				okStrip = true
 			}
 			rw = append(rw, "returns "+stripIDs(v.Ctx.path(x)))
+		case *ssa.Call:
+			if cal := x.Call.StaticCallee(); cal != nil && fullName(cal) == "strings.Join" && joined && len(x.Call.Args) == 2 {
+				if k, isK := x.Call.Args[1].(*ssa.Const); isK && k.Value != nil && k.Value.ExactString() == `"|"` {
+					okStrip = true
+				}
+			}
+			rw = append(rw, "returns "+stripIDs(v.Ctx.path(x)))
 		default:
 			rw = append(rw, "returns "+stripIDs(v.Ctx.path(r.Results[0])))
 		}
@@ -233,15 +318,15 @@ func c16OpString(a *An, opStr *ssa.Function) {
 }
 
 // sprintfArgs returns the format constant and the variadic operands of a fmt.Sprintf call.
-func sprintfArgs(call *ssa.Call) (string, []ssa.Value, bool) {
-	if len(call.Call.Args) != 2 {
+func sprintfArgs(call *ssa.Call, fi int) (string, []ssa.Value, bool) {
+	if len(call.Call.Args) != fi+2 {
 		return "", nil, false
 	}
-	k, ok := call.Call.Args[0].(*ssa.Const)
+	k, ok := call.Call.Args[fi].(*ssa.Const)
 	if !ok || k.Value == nil || k.Value.Kind() != constant.String {
 		return "", nil, false
 	}
-	sl, ok := call.Call.Args[1].(*ssa.Slice)
+	sl, ok := call.Call.Args[fi+1].(*ssa.Slice)
 	if !ok {
 		return constant.StringVal(k.Value), nil, true
 	}
@@ -303,99 +388,107 @@ func verbs(format string) []string {
 func c16EventString(a *An, evStr, opStr *ssa.Function) {
 	w := a.E.Walk(evStr, WalkOpts{Stop: func(f *ssa.Function) bool { return f == opStr }})
 	a.R.Sites += len(w.Visits)
-	type site struct {
-		withOld bool
-		cond    DNF
-		ok      bool
-		why     string
-		pos     string
-	}
-	var sites []site
+	// every formatting call is a fragment of the text: which operands it renders, with which verbs, under which condition
+	var nameD, oldD, opD DNF
+	var ws []string
+	nFrag := 0
 	for _, v := range w.Visits {
 		call, ok := v.Instr.(*ssa.Call)
 		if !ok || v.Ctx.Parent != nil {
 			continue
 		}
 		cal := call.Call.StaticCallee()
-		if cal == nil || fullName(cal) != "fmt.Sprintf" {
+		if cal == nil {
 			continue
 		}
-		format, args, okA := sprintfArgs(call)
-		s := site{cond: v.Cond, pos: a.P.instrPos(call)}
+		var fcall *ssa.Call
+		switch fullName(cal) {
+		case "fmt.Sprintf":
+			fcall = call
+		case "fmt.Fprintf":
+			fcall = call
+		default:
+			continue
+		}
+		nFrag++
+		var format string
+		var args []ssa.Value
+		okA := false
+		if fullName(cal) == "fmt.Sprintf" {
+			format, args, okA = sprintfArgs(fcall, 0)
+		} else {
+			format, args, okA = sprintfArgs(fcall, 1)
+		}
+		pos := a.P.instrPos(call)
 		if !okA {
-			s.why = "format string is not a constant"
-			sites = append(sites, s)
+			ws = append(ws, pos+": format string is not a constant")
 			continue
 		}
 		vs := verbs(format)
 		if len(vs) != len(args) {
-			s.why = sprintf("format %q has %d verbs for %d operands", format, len(vs), len(args))
-			sites = append(sites, s)
+			ws = append(ws, sprintf("%s: format %q has %d verbs for %d operands", pos, format, len(vs), len(args)))
 			continue
 		}
-		s.ok = true
-		nName, nOld, nOp := 0, 0, 0
 		for i, arg := range args {
 			if arg == nil {
-				s.ok = false
-				s.why = "operand not found"
+				ws = append(ws, pos+": operand not found")
 				continue
 			}
 			p := stripIDs(v.Ctx.path(arg))
 			verb := vs[i][len(vs[i])-1]
 			switch {
 			case p == "recv.Name":
-				nName++
+				nameD = nameD.or(v.Cond)
 				if verb != 'q' {
-					s.ok, s.why = false, sprintf("the name is rendered with %s instead of %%q", vs[i])
+					ws = append(ws, sprintf("%s: the name is rendered with %s instead of %%q", pos, vs[i]))
 				}
 			case p == "recv.renamedFrom":
-				nOld++
+				oldD = oldD.or(v.Cond)
 				if verb != 'q' {
-					s.ok, s.why = false, sprintf("the old name is rendered with %s instead of %%q", vs[i])
+					ws = append(ws, sprintf("%s: the old name is rendered with %s instead of %%q", pos, vs[i]))
 				}
 			default:
-				// e.Op.String()
 				rv, _ := v.Ctx.resolve(arg)
 				if c2, isCall := rv.(*ssa.Call); isCall && c2.Call.StaticCallee() == opStr && stripIDs(v.Ctx.path(c2.Call.Args[0])) == "recv.Op" {
-					nOp++
+					opD = opD.or(v.Cond)
 					if verb != 's' && verb != 'v' {
-						s.ok, s.why = false, sprintf("the operation text is rendered with %s", vs[i])
+						ws = append(ws, sprintf("%s: the operation text is rendered with %s", pos, vs[i]))
 					}
 				} else {
-					s.ok, s.why = false, "unexpected operand "+p
+					ws = append(ws, pos+": unexpected operand "+p)
 				}
 			}
 		}
-		if nName != 1 || nOp != 1 || nOld > 1 {
-			s.ok = false
-			s.why += sprintf(" (operands: %d name, %d op text, %d old name)", nName, nOp, nOld)
-		}
-		s.withOld = nOld == 1
-		sites = append(sites, s)
 	}
-	okAll := len(sites) == 2
-	var ws []string
-	for _, s := range sites {
-		if !s.ok {
-			okAll = false
-			ws = append(ws, s.pos+": "+s.why)
-		}
-		// old name printed iff renamedFrom != ""
-		want := func(c Conj) bool {
-			return c.has(func(l Lit) bool {
-				return l.A.Kind == AkCmp && l.A.Op == "==" && strings.HasSuffix(l.A.Subj, "recv.renamedFrom") && l.A.K == `c:""` && l.Neg == s.withOld
-			})
-		}
-		if g, _ := s.cond.everyConj(want); !g {
-			okAll = false
-			ws = append(ws, sprintf("%s: rendering with old name=%v is chosen under %s", s.pos, s.withOld, stripIDs(s.cond.String())))
+	// the name and the operation text are rendered on every path; the old name exactly when it is non-empty
+	hasOld := Lit{A: &Atom{Kind: AkCmp, Subj: "recv.renamedFrom", Op: "==", K: `c:""`}, Neg: true}
+	// use the atom as spelled in the conditions, if present
+	for _, d := range []DNF{nameD, oldD, opD} {
+		for _, c := range d {
+			for _, l := range c {
+				if l.A.Kind == AkCmp && strings.HasSuffix(l.A.Subj, "recv.renamedFrom") && l.A.K == `c:""` {
+					hasOld = Lit{A: l.A, Neg: true}
+				}
+			}
 		}
 	}
-	if len(sites) == 2 && sites[0].withOld == sites[1].withOld {
-		okAll = false
-		ws = append(ws, "both renderings treat the old name alike")
+	check := func(what string, p, q DNF) {
+		h, ctr, err := implies(p, q)
+		if err != nil {
+			a.R.fail("%v", err)
+		}
+		if !h {
+			ws = append(ws, what+" when "+stripIDs(ctr))
+		}
 	}
-	a.R.ob("C16.3", "Event.String", "Event.String shows the operation text, the quoted name and - exactly when there is one - the quoted old name", a.P.pos(evStr.Pos()), okAll,
-		sprintf("%d Sprintf site(s); %s", len(sites), strings.Join(ws, "; ")))
+	if nameD.isFalse() || opD.isFalse() {
+		ws = append(ws, "the name or the operation text is not rendered at all")
+	} else {
+		check("the name is not rendered", dnfTrue(), nameD)
+		check("the operation text is not rendered", dnfTrue(), opD)
+		check("the old name is not rendered although there is one", DNF{Conj{hasOld.A.ID(): hasOld}}, oldD)
+		check("an empty old name is rendered", oldD, DNF{Conj{hasOld.A.ID(): hasOld}})
+	}
+	a.R.ob("C16.3", "Event.String", "Event.String shows the operation text, the quoted name and - exactly when there is one - the quoted old name", a.P.pos(evStr.Pos()), len(ws) == 0 && nFrag >= 1,
+		sprintf("%d formatting call(s); %s", nFrag, strings.Join(ws, "; ")))
 }
